@@ -105,9 +105,9 @@ def observe(case):
         n, m = case[1], case[2]
         add("gcd", n, m, lambda: E.vy_gcd(n, m, ctx))
         add("lcm", n, m, lambda: E.lowest_common_multiple(n, m, ctx))
-        if m <= n <= 60:
-            a1 = digs(E.n_choose_r(n - 1, m - 1, ctx)) if n >= 1 and m >= 1 else [0]
-            a2 = digs(E.n_choose_r(n - 1, m, ctx)) if n >= 1 else [0]
+        if n <= 60 and m <= 60:       # also m > n: the binomial coefficient is 0 there
+            a1 = digs(E.n_choose_r(n - 1, m - 1, ctx)) if n >= 1 and 1 <= m <= n else [0]
+            a2 = digs(E.n_choose_r(n - 1, m, ctx)) if n >= 1 and m <= n else [0]
             add("binomial", n, m, lambda: E.n_choose_r(n, m, ctx), "d", [a1, a2])
     return {"calls": [c for c in calls if c is not None]}
 
